@@ -92,6 +92,27 @@ func (a *argumentsObject) iterateStringKeys() iterNextFunc {
 	}).next
 }
 
+func (a *argumentsObject) stringKeys(all bool, keys []Value) []Value {
+	if all {
+		return a.baseObject.stringKeys(all, keys)
+	}
+	a.ensurePropOrder()
+	for _, k := range a.propNames {
+		switch prop := a.values[k].(type) {
+		case *valueProperty:
+			if !prop.enumerable {
+				continue
+			}
+		case *mappedProperty:
+			if !prop.enumerable {
+				continue
+			}
+		}
+		keys = append(keys, stringValueFromRaw(k))
+	}
+	return keys
+}
+
 func (a *argumentsObject) defineOwnPropertyStr(name unistring.String, descr PropertyDescriptor, throw bool) bool {
 	if mapped, ok := a.values[name].(*mappedProperty); ok {
 		existing := &valueProperty{
